@@ -278,10 +278,11 @@ impl Family for ChunkerWFamily {
         Box::new(ChunkerWExec::new())
     }
 
-    /// A sample of the `chunker` family's enumerated cases (every 8th; all of them in the thorough tier).
+    /// A sample of the `chunker` family's enumerated cases (every 8th; every 2nd in the thorough tier: the
+    /// world-level model replays 512 KiB block reads as lists).
     fn enumerated(&self, thorough: bool) -> Vec<Vec<String>> {
         let all = ChunkerFamily.enumerated(false);
-        let step = if thorough { 1 } else { 8 };
+        let step = if thorough { 2 } else { 8 };
         all.into_iter().enumerate().filter(|(k, _)| k % step == 0).map(|(_, c)| c).collect()
     }
 
@@ -507,10 +508,10 @@ impl Family for ReaderWFamily {
     }
 
     /// A sample of the `reader` family's enumerated cases (the first three — F1 reproducer, the crate's test
-    /// vector, the empty stream — then every 32nd; all of them in the thorough tier).
+    /// vector, the empty stream — then every 32nd; every 8th in the thorough tier).
     fn enumerated(&self, thorough: bool) -> Vec<Vec<String>> {
         let all = ReaderFamily.enumerated(false);
-        let step = if thorough { 1 } else { 32 };
+        let step = if thorough { 8 } else { 32 };
         all.into_iter().enumerate().filter(|(k, _)| *k < 3 || k % step == 0).map(|(_, c)| c).collect()
     }
 
